@@ -102,7 +102,9 @@ def gen_world(rng, tier, *, min_species=2, max_species=5, allow_small_refs=True,
                           "atomids": list(range(atomid, atomid + n))})
         resid += nres
         atomid += n
-    if rng.random() < 0.5:
+    if rng.random() < 0.08:
+        box = [round(rng.uniform(100, 999), 5) for _ in range(3)]      # a large system: three-digit edges, five decimals in use
+    elif rng.random() < 0.5:
         box = [round(rng.uniform(5, 30), 5) for _ in range(3)]
     else:
         d = [round(rng.uniform(5, 30), 5) for _ in range(3)]
